@@ -115,6 +115,14 @@ class C03(core.Check):
             return r.randint(small + 1, 12)
         return r.randint(13, 70)
 
+    @staticmethod
+    def ordinate(r, plain):
+        """an ordinate of a POINTS / PATTERN pair: mostly the small numbers of hand-written symbols, now and then a
+        digitised coordinate with 7-9 decimals (lon/lat) or a long dash length"""
+        if r.random() < 0.8:
+            return plain
+        return round(1 + r.uniform(0, 179), r.choice([7, 8, 9]))
+
     def gen_attr(self, r, typ, key):
         kinds = [k for k in self.vocab.kinds_for(typ, key) if not (k == "regex" and key not in ("expression", "filter", "text"))]
         if not kinds:
@@ -150,9 +158,9 @@ class C03(core.Check):
                 items.append([k, a])
         extras = []
         if typ in ("map", "layer", "class", "web") and r.random() < 0.4:
-            extras.append(["metadata", self.gen_kv(r, "metadata", ["key0", "key1", "key2", "wms_title", "ows_enable_request", "b", "a", "10", "9", "z y"])])
+            extras.append(["metadata", self.gen_kv(r, "metadata", ["key0", "key1", "key2", "wms_title", "ows_enable_request", "b", "a", "10", "9", "z y", "__source_id", "x__", "__"])])
         if typ == "layer" and r.random() < 0.15:
-            extras.append(["validation", self.gen_kv(r, "validation", ["layer", "default_layer", "b", "a", "2", "10"])])
+            extras.append(["validation", self.gen_kv(r, "validation", ["layer", "default_layer", "b", "a", "2", "10", "__v"])])
         if typ == "layer" and r.random() < 0.1:
             extras.append(["connectionoptions", self.gen_kv(r, "connectionoptions", ["flatten_nested_attributes", "b_opt", "a_opt"])])
         if typ == "scaletoken" and r.random() < 0.7:
@@ -169,11 +177,11 @@ class C03(core.Check):
             if r.random() < 0.2:
                 extras.append(["projection", ["projection", r.choice(["AUTO", ["init=epsg:3857"]])]])
         if typ == "style" and r.random() < 0.25:
-            extras.append(["pattern", ["pattern", [[r.randint(1, 9), r.randint(1, 9)] for _ in range(self.list_len(r, 3))]]])
+            extras.append(["pattern", ["pattern", [[self.ordinate(r, r.randint(1, 9)), self.ordinate(r, r.randint(1, 9))] for _ in range(self.list_len(r, 3))]]])
         if typ == "feature" and r.random() < 0.4:
-            extras.append(["points", ["multipoints", [[[r.randint(0, 50), r.choice([1, 2.5, 10])] for _ in range(self.list_len(r, 3))] for _ in range(2)]]])
+            extras.append(["points", ["multipoints", [[[self.ordinate(r, r.randint(0, 50)), self.ordinate(r, r.choice([1, 2.5, 10]))] for _ in range(self.list_len(r, 3))] for _ in range(2)]]])
         elif typ == "feature" or (typ == "symbol" and r.random() < 0.4):
-            extras.append(["points", ["points", [[r.randint(0, 50), r.choice([1, 2.5, 10])] for _ in range(self.list_len(r, 4))]]])
+            extras.append(["points", ["points", [[self.ordinate(r, r.randint(0, 50)), self.ordinate(r, r.choice([1, 2.5, 10]))] for _ in range(self.list_len(r, 4))]]])
         if typ == "outputformat" and r.random() < 0.5:
             extras.append(["formatoption", ["repeated", [r.choice(["GAMMA=0.75", "QUALITY=80"]) for _ in range(r.randint(1, 2))]]])
         if depth < 3:
